@@ -82,8 +82,9 @@ def run(ck):
             ck.count("layouts with every length 0..capacity+1")
         for n in (range(0, cap + 2) if sweep else lengths(rng, cap, ck.thorough)):
             if n >= 255 and not lay["hdr3"]:
-                ck.count("skipped: 3-byte length field would lie on a reserved byte (outside the quantifier)")
-                continue
+                # the 3-byte length field falls on a reserved byte: the round trip still holds (theorem needs
+                # no hypothesis for it); what happens to the reserved byte is the business of C03
+                ck.count("3-byte length field over a reserved byte (round trip checked, confinement is C03)")
             data = bytes(rng.randrange(256) for _ in range(n))
             if rng.random() < 0.1:
                 data = bytes([rng.choice([0, 0xFF, 0xFE, 0x03])]) * n
@@ -139,7 +140,7 @@ def run(ck):
     ck.count("theorem hypotheses (WF, Hdr3) hold", nwf)
     ck.count("theorem hypotheses do not hold", len(wf) - nwf)
     for r, x in zip(runs, wf):
-        if x != "1" and r.nd is not None and (len(r.data) < 255 or r.lay["hdr3"]):
+        if x != "1" and r.nd is not None and (len(r.data) < 255 or r.lay["hdr3"]):  # Hdr3 is only needed by C03
             ck.fail("tie:t12-generated-layout-not-WF", "the generator calls this layout well-formed, the Lean predicate "
                     "WF does not", r.replay())
             break
